@@ -312,6 +312,32 @@ func init() {
 	Ops.G16KInfinity = g16KInfinity
 	Ops.G16NbCommitments = func(vk any) int { return len(vk.(*g16.VerifyingKey).PublicAndCommitmentCommitted) }
 	Ops.G16ProofEqual = func(a, b any) bool { return g16equal(a.(*g16.Proof), b.(*g16.Proof)) }
+	// Cross-commitment audit of the keys Setup produced: a proof of knowledge assembled from
+	// the proving-key material of commitment j (Basis[k], BasisExpSigma[k]) must not verify
+	// under the verification key of commitment i != j; the own pair must.  Returns the number
+	// of pairs tried and a description of every wrong outcome.
+	Ops.Ext["G16CrossCommitmentKeys"] = func(pka, vka any) (int, []string) {
+		pk := pka.(*g16.ProvingKey)
+		vk := vka.(*g16.VerifyingKey)
+		var bad []string
+		n := 0
+		for j := range pk.CommitmentKeys {
+			if len(pk.CommitmentKeys[j].Basis) == 0 {
+				continue
+			}
+			for i := range vk.CommitmentKeys {
+				n++
+				err := vk.CommitmentKeys[i].Verify(pk.CommitmentKeys[j].Basis[0], pk.CommitmentKeys[j].BasisExpSigma[0])
+				if i == j && err != nil {
+					bad = append(bad, fmt.Sprintf("own-pair-rejected: commitment %d: %v", i, err))
+				}
+				if i != j && err == nil {
+					bad = append(bad, fmt.Sprintf("foreign-pair-accepted: knowledge proof built from the key of commitment %d verifies under the key of commitment %d", j, i))
+				}
+			}
+		}
+		return n, bad
+	}
 	// equality of everything but CommitmentPok (a component the verification
 	// equations of a key without commitments never read)
 	Ops.Ext["G16ProofEqualButPok"] = func(a, b any) bool {
